@@ -86,6 +86,8 @@ pub enum FeOp {
     GetMaxMemSlots,
     AddMemRegion(u64, u64, u64, u64, usize),
     RemoveMemRegion(u64, u64, u64, u64),
+    /// the same request issued with `mmap_handle: -1` (REM_MEM_REG carries no descriptor)
+    RemoveMemRegionNoFd(u64, u64, u64, u64),
     GetShmemConfig,
     SetDeviceStateFd(u32),
     CheckDeviceState,
@@ -135,7 +137,7 @@ impl FeOp {
             FeOp::SetInflightFd(..) => "set_inflight_fd",
             FeOp::GetMaxMemSlots => "get_max_mem_slots",
             FeOp::AddMemRegion(..) => "add_mem_region",
-            FeOp::RemoveMemRegion(..) => "remove_mem_region",
+            FeOp::RemoveMemRegion(..) | FeOp::RemoveMemRegionNoFd(..) => "remove_mem_region",
             FeOp::GetShmemConfig => "get_shmem_config",
             FeOp::SetDeviceStateFd(_) => "set_device_state_fd",
             FeOp::CheckDeviceState => "check_device_state",
@@ -176,7 +178,7 @@ impl FeOp {
             FeOp::SetInflightFd(..) => spec::SET_INFLIGHT_FD,
             FeOp::GetMaxMemSlots => spec::GET_MAX_MEM_SLOTS,
             FeOp::AddMemRegion(..) => spec::ADD_MEM_REG,
-            FeOp::RemoveMemRegion(..) => spec::REM_MEM_REG,
+            FeOp::RemoveMemRegion(..) | FeOp::RemoveMemRegionNoFd(..) => spec::REM_MEM_REG,
             FeOp::GetShmemConfig => spec::GET_SHMEM_CONFIG,
             FeOp::SetDeviceStateFd(_) => spec::SET_DEVICE_STATE_FD,
             FeOp::CheckDeviceState => spec::CHECK_DEVICE_STATE,
@@ -190,7 +192,7 @@ impl FeOp {
             FeOp::GetConfig(..) | FeOp::SetConfig(..) => Some(spec::PF_CONFIG),
             FeOp::SetBackendReqFd => Some(spec::PF_BACKEND_REQ),
             FeOp::GetInflightFd(..) | FeOp::SetInflightFd(..) => Some(spec::PF_INFLIGHT_SHMFD),
-            FeOp::GetMaxMemSlots | FeOp::AddMemRegion(..) | FeOp::RemoveMemRegion(..) => Some(spec::PF_CONFIGURE_MEM_SLOTS),
+            FeOp::GetMaxMemSlots | FeOp::AddMemRegion(..) | FeOp::RemoveMemRegion(..) | FeOp::RemoveMemRegionNoFd(..) => Some(spec::PF_CONFIGURE_MEM_SLOTS),
             FeOp::ResetDevice => Some(spec::PF_RESET_DEVICE),
             FeOp::GetSharedObject(_) => Some(spec::PF_SHARED_OBJECT),
             FeOp::GetShmemConfig => Some(spec::PF_SHMEM),
@@ -280,7 +282,7 @@ impl FeOp {
                 c.files.push(m(*i));
                 c
             }
-            FeOp::RemoveMemRegion(g, s, u, o) => Call::new("remove_mem_region", vec![*g, *s, *u, *o]),
+            FeOp::RemoveMemRegion(g, s, u, o) | FeOp::RemoveMemRegionNoFd(g, s, u, o) => Call::new("remove_mem_region", vec![*g, *s, *u, *o]),
             FeOp::GetShmemConfig => Call::new("get_shmem_config", vec![]),
             FeOp::SetDeviceStateFd(d) => {
                 let mut c = Call::new("set_device_state_fd", vec![*d as u64, 0]);
@@ -389,6 +391,7 @@ pub fn invoke(fe: &mut Frontend, op: &FeOp, res: &Resources) -> Result<FeRet, St
         FeOp::GetMaxMemSlots => fe.get_max_mem_slots().map(FeRet::U64).map_err(e),
         FeOp::AddMemRegion(g, s, u, o, i) => fe.add_mem_region(&region_info(&(*g, *s, *u, *o, *i), res)).map(|_| FeRet::Unit).map_err(e),
         FeOp::RemoveMemRegion(g, s, u, o) => fe.remove_mem_region(&region_info(&(*g, *s, *u, *o, 0), res)).map(|_| FeRet::Unit).map_err(e),
+        FeOp::RemoveMemRegionNoFd(g, s, u, o) => fe.remove_mem_region(&VhostUserMemoryRegionInfo { mmap_handle: -1, ..region_info(&(*g, *s, *u, *o, 0), res) }).map(|_| FeRet::Unit).map_err(e),
         FeOp::GetShmemConfig => fe.get_shmem_config().map(|c| FeRet::Shmem(c.nregions, c.memory_sizes.to_vec())).map_err(e),
         FeOp::SetDeviceStateFd(d) => {
             let dir = if *d == 0 { VhostTransferStateDirection::SAVE } else { VhostTransferStateDirection::LOAD };
@@ -432,6 +435,7 @@ pub fn all_ops_basic() -> Vec<FeOp> {
         FeOp::GetShmemConfig,
         FeOp::SetDeviceStateFd(0),
         FeOp::CheckDeviceState,
+        FeOp::RemoveMemRegionNoFd(0x30_0000, 0x2000, 0x7f00_3000_0000, 0x1000),
     ]
 }
 
@@ -475,6 +479,7 @@ pub fn fe_variants(level: u8, seed: u64) -> Vec<FeOp> {
         v.push(FeOp::AddMemRegion(patv(7), patv(8) | 1, patv(9), x, 2));
         v.push(FeOp::RemoveMemRegion(x, patv(1) | 1, patv(2), patv(3)));
         v.push(FeOp::RemoveMemRegion(patv(4), patv(5) | 1, patv(6), x));
+        v.push(FeOp::RemoveMemRegionNoFd(patv(7), patv(8) | 1, x, patv(9)));
         if x != 0 {
             v.push(FeOp::SetMemTable(vec![(0x1000, x, 0x7f00_0000_0000, 0, 3)]));
             v.push(FeOp::AddMemRegion(patv(10), x, patv(11), patv(12), 3));
@@ -547,13 +552,24 @@ pub fn fe_variants(level: u8, seed: u64) -> Vec<FeOp> {
 }
 
 impl FeOp {
+    /// The queue index of a per-ring operation.
+    pub fn queue_index(&self) -> Option<u64> {
+        match self {
+            FeOp::SetVringNum(i, _) | FeOp::SetVringBase(i, _) => Some(*i as u64),
+            FeOp::SetVringAddr(i, ..) => Some(*i as u64),
+            FeOp::GetVringBase(i) | FeOp::SetVringCall(i) | FeOp::SetVringKick(i) | FeOp::SetVringErr(i) => Some(*i as u64),
+            FeOp::SetVringEnable(i, _) => Some(*i as u64),
+            _ => None,
+        }
+    }
+
     /// Is the request this call produces valid by the protocol's rules (reference predicates)?
     /// The frontend API accepts more than that (e.g. unaligned ring addresses, wrapping regions).
     pub fn wire_valid(&self) -> bool {
         use crate::model::validators as v;
         match self {
             FeOp::SetMemTable(rs) => !rs.is_empty() && rs.len() <= 32 && rs.iter().all(|r| v::region_valid(r.0, r.1, r.2, r.3)),
-            FeOp::AddMemRegion(g, s, u, o, _) | FeOp::RemoveMemRegion(g, s, u, o) => v::region_valid(*g, *s, *u, *o),
+            FeOp::AddMemRegion(g, s, u, o, _) | FeOp::RemoveMemRegion(g, s, u, o) | FeOp::RemoveMemRegionNoFd(g, s, u, o) => v::region_valid(*g, *s, *u, *o),
             FeOp::SetVringAddr(_, f, d, u, a, _) => v::vring_addr_valid(*f, *d, *u, *a),
             FeOp::SetLogBase(_, Some((s, o))) => v::log_valid(*s, *o),
             FeOp::GetConfig(o, s, f) => v::config_valid(*o, *s, *f),
